@@ -1340,8 +1340,15 @@ class RealFloat(numbers.Rational):
 
         # step 6. check if rounding was exact (if so, we're done)
         if lost.is_zero():
-            # just choose one of the rounding modes (RTZ)
-            rand_rm = RoundingMode.RTZ
+            # the extended-precision value has no rounding bits left:
+            # either `self` is representable (any mode will do) or rounding
+            # to the extended precision already carried up to the next
+            # representable value, in which case every draw rounds away
+            kept, _ = self.split(n)
+            if abs(xr) > abs(kept):
+                rand_rm = RoundingMode.RAZ
+            else:
+                rand_rm = RoundingMode.RTZ
         else:
             # step 7. normalize `lost` so that `lost.n == n_rand`
             offset = lost._exp - (n_rand + 1)
